@@ -191,6 +191,23 @@ Theorem acceptor_sound : forall c ls s s',
 Proof. exact RTLoopFacts.acceptor_sound_l. Qed.
 Print Assumptions acceptor_sound.
 
+(* With reports of graph.next_scheduled_time() in the history: an accepted history is a run of the model and every
+   reported value equals the minimum of the pending set (-1: nothing pending) — checked by [accept_ix] itself. *)
+Theorem acceptor_with_next_sound : forall c os s i s',
+  fst (accept_ix c s os i) = -1 -> 0 <= i -> snd (accept_ix c s os i) = s' -> exec c s (labels_of os) = Some s'.
+Proof. exact RTLoopFacts.accept_ix_run. Qed.
+Print Assumptions acceptor_with_next_sound.
+
+(* ---- the cached next_scheduled_time (what the loop takes its target from) ---- *)
+(* Mirror of the root scan of evaluate_impl (graph.cpp): after a cycle at t the cached next_scheduled_time is at
+   or below EVERY future slot — of the push-source prefix as of the ordinary nodes, whether or not the node was
+   evaluated in the cycle (a push evaluates every prefix node, also one that holds a future timer). *)
+Theorem root_scan_next_le_future_slots : forall t pushp beh prefix rest slots' next',
+  root_scan t pushp beh prefix rest = (slots', next') ->
+  forall s, In s slots' -> t < s -> s < MAX_DT -> next' <= s.
+Proof. exact RTLoopFacts.root_scan_next_le_future_slots_l. Qed.
+Print Assumptions root_scan_next_le_future_slots.
+
 (* What the free-running acceptor checks of one cycle holds of every cycle of the model whatever
    the unobserved reading w was (wlast: an earlier reading, wobs: a later one). *)
 Theorem free_running_cycle_check_sound : forall (first : bool) start endt prev wlast tgt w wobs t,
@@ -239,6 +256,14 @@ Example ex_stop_during_start :
   | None => False
   end.
 Proof. vm_compute. repeat split; reflexivity. Qed.
+
+(* the scan on a push cycle at 10: prefix = [a push source without timer; a push-kind heartbeat holding 50],
+   ordinary nodes [due now, re-arming at 70; idle at 30]: the heartbeat is evaluated (push pending), asks for nothing,
+   and its 50 is still folded in; the result is min(50, 70, 30) = 30 *)
+Example ex_root_scan :
+  root_scan 10 true (fun i => if Nat.eqb i 2 then [70] else []) [0; 50] [10; 30] = ([0; 50; 70; 30], 30) /\
+  root_scan 10 true (fun i => []) [0; 50] [5] = ([0; 50; 5], 50).
+Proof. vm_compute. split; reflexivity. Qed.
 
 Example ex_wfc : wfc ex_cfg.
 Proof. unfold wfc, ex_cfg, MAX_DT; simpl; lia. Qed.
